@@ -132,6 +132,43 @@ func genHostile(front string) func(t *rapid.T) hostileCase {
 			switch {
 			case k == 0:
 				st = gwgen.Adv(int64(rapid.SampledFrom([]int{1, 2, 50, 101, 1100, 5200}).Draw(t, "adv")))
+			case front == "client" && k == 2 && rapid.Bool().Draw(t, "sleepfrag"):
+				// a fragment of the sleep life cycle around the session's keep-alive K: sleeps shorter and
+				// longer than K, wake-ups, re-announced sleeps, CONNECT out of sleep, in a drawn order
+				K := uint16(rapid.SampledFrom([]int{1, 60}).Draw(t, "fragK"))
+				for j := rapid.IntRange(2, 6).Draw(t, "fraglen"); j > 0; j-- {
+					var p snref.Pkt
+					switch rapid.IntRange(0, 4).Draw(t, "fragkind") {
+					case 0:
+						p = gwgen.Connect("cl", K, false, rapid.Bool().Draw(t, "fragclean"))
+					case 1, 2:
+						p = gwgen.Disconnect(rapid.SampledFrom([]uint16{1, K, K + 1, 3 * K, 0}).Draw(t, "fragdur"))
+					case 3:
+						p = gwgen.Pingreq("cl")
+					default:
+						p = gwgen.Pingreq("")
+					}
+					sc.Steps = append(sc.Steps, gwgen.SN(p))
+					if rapid.IntRange(0, 3).Draw(t, "fragadv") == 0 {
+						sc.Steps = append(sc.Steps, gwgen.Adv(int64(rapid.SampledFrom([]int{1, 150, 1100}).Draw(t, "fragadvms"))))
+					}
+				}
+				continue
+			case front == "broker" && k == 4:
+				// a proper request from the client, so that an exchange towards the broker is open ...
+				mid := uint16(rapid.SampledFrom([]int{1, 2, 3}).Draw(t, "reqmid"))
+				switch rapid.IntRange(0, 2).Draw(t, "req") {
+				case 0:
+					st = gwgen.SN(gwgen.SubscribeName(rapid.SampledFrom([]string{"t/a", "t/#", "ab"}).Draw(t, "reqfilter"), byte(rapid.IntRange(0, 2).Draw(t, "reqqos")), mid))
+				case 1:
+					st = gwgen.SN(gwgen.Publish(snref.TITShort, snref.ShortID("ab"), byte(rapid.IntRange(1, 2).Draw(t, "reqqos")), mid, []byte("q")))
+				default:
+					st = gwgen.SN(snref.Pkt{Type: snref.UNSUBSCRIBE, TIT: snref.TITNormal, TopicName: "t/a", MsgID: mid})
+				}
+			case front == "broker" && k == 5:
+				// ... and an answer of the broker to the gateway's latest request: of the right or a wrong
+				// kind, a SUBACK with 0-3 return codes
+				st = gwsim.Step{K: "mqack", D: int64(rapid.IntRange(0, 15).Draw(t, "ackvariant"))}
 			case front == "client" && k == 1:
 				// a duplicated datagram: one of the client's last three (its automatic acknowledgements included)
 				st = gwsim.Step{K: "snrepeat", D: int64(rapid.IntRange(1, 3).Draw(t, "repeat"))}
@@ -184,7 +221,7 @@ func runHostile(c hostileCase) (r vf.Result) {
 func TestC25Client(t *testing.T) {
 	vf.Check(t, vf.Prop[hostileCase]{
 		ID: "C25", Name: "hostile-client-to-gateway", Bubble: true, MarkCurrent: true,
-		Rule: "1-40 decodable packets from a hostile MQTT-SN client over all 28 types with generated fields (message and topic IDs from small pools so that they hit live exchanges, reserved topic-ID type, QoS 3, zero and maximal durations, sleep/wake), and repetitions of one of the client's last three datagrams (its automatic REGACK/PUBACK/PUBREC/PUBCOMP replies included), interleaved with well-formed broker publishes (so that broker-initiated exchanges are open), time advances around the retry and poll periods and same-instant injections on both links; retry delays down to 1 ms. Non-trivial = at least one packet arrives that the happy path does not expect in that state (any type other than CONNECT/PUBLISH/SUBSCRIBE/REGISTER/PINGREQ/DISCONNECT); distinct by script.",
+		Rule: "1-40 decodable packets from a hostile MQTT-SN client over all 28 types with generated fields (message and topic IDs from small pools so that they hit live exchanges, reserved topic-ID type, QoS 3, zero and maximal durations, sleep/wake), fragments of the sleep life cycle (sleeps shorter and longer than the keep-alive, wake-ups, re-announced sleeps, CONNECT out of sleep, in any order), and repetitions of one of the client's last three datagrams (its automatic REGACK/PUBACK/PUBREC/PUBCOMP replies included), interleaved with well-formed broker publishes (so that broker-initiated exchanges are open), time advances around the retry and poll periods and same-instant injections on both links; retry delays down to 1 ms. Non-trivial = at least one packet arrives that the happy path does not expect in that state (any type other than CONNECT/PUBLISH/SUBSCRIBE/REGISTER/PINGREQ/DISCONNECT); distinct by script.",
 		Assumptions: []string{"oracle: the test process survives the case (a panic in any session goroutine kills it); a clean error or termination of the session passes"},
 		Gen:         genHostile("client"),
 		Run:         runHostile,
@@ -194,7 +231,7 @@ func TestC25Client(t *testing.T) {
 func TestC25Broker(t *testing.T) {
 	vf.Check(t, vf.Prop[hostileCase]{
 		ID: "C25", Name: "hostile-broker-to-gateway", Bubble: true, MarkCurrent: true,
-		Rule: "1-40 steps against a connected (or not) session: packets of all 14 MQTT types from the broker in any state, SUBACKs with 0/2+ return codes, PUBLISH with QoS 3 bits, empty/wildcard/invalid topics, 9000-octet payloads, wrong fixed-header flags, truncated packets, lying remaining lengths and garbage, mixed with client packets of any type and time advances. Non-trivial = at least one malformed or unsolicited broker packet; distinct by script.",
+		Rule: "1-40 steps against a connected (or not) session: proper client requests answered by the broker with acknowledgements of the right or a wrong kind for that very message ID (SUBACK with 0-3 return codes), packets of all 14 MQTT types from the broker in any state, SUBACKs with 0/2+ return codes, PUBLISH with QoS 3 bits, empty/wildcard/invalid topics, 9000-octet payloads, wrong fixed-header flags, truncated packets, lying remaining lengths and garbage, mixed with client packets of any type and time advances. Non-trivial = at least one malformed or unsolicited broker packet; distinct by script.",
 		Gen: genHostile("broker"),
 		Run: runHostile,
 	})
